@@ -12,7 +12,10 @@ elab "#audit_ns " ns:ident : command => do
   let pfx := ns.getId
   let mut names : Array Name := #[]
   for (n, ci) in env.constants.toList do
-    if pfx.isPrefixOf n && !n.isInternal then
+    let last := match n with | .str _ s => s | _ => ""
+    let auto := last.startsWith "eq_" || last.startsWith "match_" || last.startsWith "proof_" ||
+      last.startsWith "sizeOf" || last == "induct" || last.startsWith "injEq" || last.startsWith "noConfusion"
+    if pfx.isPrefixOf n && !n.isInternal && !auto then
       match ci with
       | .thmInfo _ => names := names.push n
       | _ => pure ()
